@@ -49,7 +49,10 @@ pub(super) fn build_type_lookup(
 				.collect();
 			let struct_decl = syn::ItemStruct {
 				attrs: Default::default(),
-				vis: syn::Visibility::Inherited,
+				// `pub` so that deriving on a `pub` generic type does not expose a private
+				// type through the `TypeLookup` associated type (E0446). It stays unnameable:
+				// it lives in the anonymous `const _` block.
+				vis: syn::Visibility::Public(Default::default()),
 				struct_token: syn::token::Struct::default(),
 				ident: type_lookup_ident.clone(),
 				generics: syn::Generics {
